@@ -299,6 +299,215 @@ theorem remoteAddr_nozone (h : S_dnsserver_httpHandler) (addr : List Char) (ha :
 
 example : goCut "fe80::1%eth0" "%" = ("fe80::1", "eth0", true) := by decide
 
+
+/-! ## The life cycle of a TCP/DoT connection (`Agd.Serve.cStep`), as translated from the source
+
+`serveTCPConn`, `acceptTCPMsg` (and the task closure it submits) and `serveTCPMessage` of
+`internal/dnsserver/serverdnstcp.go` are translated with every library object (connection, wait groups,
+worker pool, semaphore) as traced opaque calls; the `for s.isStarted() { … }` loop is a `goFor` loop, so the
+theorems hold for every iteration bound and every sequence of `isStarted` / `acceptTCPMsg` results.  They are
+the three facts the model's transition system rests on: the frame is counted in the connection's wait group
+by the *reader*, before the worker is submitted (`recv`); the worker signals the wait group *last*, after the
+response was written or — if nothing was written — after it closed the connection (`finish`); and on every
+way out of the read loop the clean-up *waits for the workers before it closes the connection*
+(`cSettle true`). -/
+
+def cnt (n : String) (tr : List (String × List String)) : Nat := (names tr).count n
+
+/-- `a` occurs, and the first `b` comes after the first `a`. -/
+def before (a b : String) (tr : List (String × List String)) : Prop :=
+  a ∈ names tr ∧ (names tr).idxOf a < (names tr).idxOf b
+
+/-- Names of the calls `serveTCPConn` makes before it leaves. -/
+def connBody : List String := ["NewChanSemaphore", "handshake", "isStarted", "acceptTCPMsg", "logReadErr"]
+
+/-- What `serveTCPConn` does on every way out: recover, wait for the connection's in-flight messages,
+close the connection, forget it (under the lock), tell the server's wait group. -/
+def connExit : List String := ["handlePanicAndRecover", "Wait", "OnCloserError", "Lock", "delete", "Unlock", "Done"]
+
+def connOk (tr : List (String × List String)) : Prop :=
+  ∃ pre, names tr = pre ++ connExit ∧ ∀ n ∈ pre, n ∈ connBody
+
+private theorem names_append (a b : List (String × List String)) : names (a ++ b) = names a ++ names b := by
+  simp [names]
+
+private theorem connOk_exit (tr : List (String × List String)) (h : ∀ n ∈ names tr, n ∈ connBody) :
+    connOk (tr ++ [("handlePanicAndRecover", ["_"])] ++ [("Wait", [])] ++ [("OnCloserError", ["_", toString (3 : Int)])] ++
+      [("Lock", [])] ++ [("delete", ["_", "_"])] ++ [("Unlock", [])] ++ [("Done", [])]) := by
+  refine ⟨names tr, ?_, h⟩
+  simp [names, connExit]
+
+private theorem body_snoc (tr : List (String × List String)) (e : String × List String)
+    (h : ∀ n ∈ names tr, n ∈ connBody) (he : e.1 ∈ connBody) : ∀ n ∈ names (tr ++ [e]), n ∈ connBody := by
+  intro n hn
+  simp only [names, List.map_append, List.map_cons, List.map_nil, List.mem_append, List.mem_singleton] at hn
+  rcases hn with hn | hn
+  · exact h n hn
+  · rw [hn]; exact he
+
+/-- Discharges "only calls of the serving loop so far" / "… followed by the exit sequence" goals. -/
+local macro "conn_tac" : tactic =>
+  `(tactic| repeat' (first | assumption | (simp [connBody, names]; done) | apply connOk_exit | apply body_snoc))
+
+/-- The loop invariant / exit condition of the serving loop. -/
+private def connQ : (Option String × Int × List (String × List String)) ⊕ List (String × List String) → Prop
+  | .inl st => ∀ n ∈ names st.2.2, n ∈ connBody
+  | .inr r => connOk r
+
+/-- **Every way out of `serveTCPConn` closes the connection exactly once**, after waiting for the
+messages still being processed, and releases the server's wait group last — for every configuration,
+every handshake result, every iteration bound and every sequence of `isStarted` / `acceptTCPMsg`
+results: the trace is calls of the serving loop followed by the exit sequence `connExit`. -/
+theorem serveTCPConn_exit (s : S_dnsserver_ServerDNS) (sem : AbsPtr) (hs : Option String) (fuel : Nat)
+    (started : Nat → Bool) (acc : Nat → Option String) (tr : List (String × List String))
+    (h : serveTCPConn s sem hs fuel started acc = some tr) : connOk tr := by
+  unfold serveTCPConn at h
+  dsimp only at h
+  split at h <;> split at h
+  · cases h
+    conn_tac
+  · split at h
+    · cases h
+    · rename_i r heq
+      cases h
+      refine goFor_inv _ (fun _ st => ∀ n ∈ names st.2.2, n ∈ connBody) connQ fuel _ (by conn_tac) ?_ _ heq
+      intro i st hp
+      obtain ⟨e, t, tr1⟩ := st
+      dsimp only
+      by_cases h1 : started i = true <;> by_cases h2 : (acc i).isSome = true <;>
+        simp only [h1, h2, ↓reduceIte, connQ] <;> conn_tac
+    · rename_i st heq
+      obtain ⟨e, t, tr1⟩ := st
+      cases h
+      have hq : connQ (.inl (e, t, tr1)) := by
+        refine goFor_inv _ (fun _ st => ∀ n ∈ names st.2.2, n ∈ connBody) connQ fuel _ (by conn_tac) ?_ _ heq
+        intro i st hp
+        obtain ⟨e, t, tr1⟩ := st
+        dsimp only
+        by_cases h1 : started i = true <;> by_cases h2 : (acc i).isSome = true <;>
+          simp only [h1, h2, ↓reduceIte, connQ] <;> conn_tac
+      have hq' : ∀ n ∈ names tr1, n ∈ connBody := hq
+      conn_tac
+  · cases h
+    conn_tac
+  · split at h
+    · cases h
+    · rename_i r heq
+      cases h
+      refine goFor_inv _ (fun _ st => ∀ n ∈ names st.2.2, n ∈ connBody) connQ fuel _ (by conn_tac) ?_ _ heq
+      intro i st hp
+      obtain ⟨e, t, tr1⟩ := st
+      dsimp only
+      by_cases h1 : started i = true <;> by_cases h2 : (acc i).isSome = true <;>
+        simp only [h1, h2, ↓reduceIte, connQ] <;> conn_tac
+    · rename_i st heq
+      obtain ⟨e, t, tr1⟩ := st
+      cases h
+      have hq : connQ (.inl (e, t, tr1)) := by
+        refine goFor_inv _ (fun _ st => ∀ n ∈ names st.2.2, n ∈ connBody) connQ fuel _ (by conn_tac) ?_ _ heq
+        intro i st hp
+        obtain ⟨e, t, tr1⟩ := st
+        dsimp only
+        by_cases h1 : started i = true <;> by_cases h2 : (acc i).isSome = true <;>
+          simp only [h1, h2, ↓reduceIte, connQ] <;> conn_tac
+      have hq' : ∀ n ∈ names tr1, n ∈ connBody := hq
+      conn_tac
+
+private theorem count_body (n : String) (hn : n ∉ connBody) : ∀ pre : List String, (∀ m ∈ pre, m ∈ connBody) → pre.count n = 0
+  | [], _ => rfl
+  | m :: pre, h => by
+    have hm : m ∈ connBody := h m (by simp)
+    have : m ≠ n := fun e => hn (e ▸ hm)
+    rw [List.count_cons_of_ne (by simpa using this)]
+    exact count_body n hn pre (fun k hk => h k (by simp [hk]))
+
+/-- Closed exactly once, after exactly one `Wait`; one `Done`, and it is the last call. -/
+theorem serveTCPConn_closes_once (s : S_dnsserver_ServerDNS) (sem : AbsPtr) (hs : Option String) (fuel : Nat)
+    (started : Nat → Bool) (acc : Nat → Option String) (tr : List (String × List String))
+    (h : serveTCPConn s sem hs fuel started acc = some tr) :
+    cnt "OnCloserError" tr = 1 ∧ cnt "Wait" tr = 1 ∧ cnt "Done" tr = 1 ∧ cnt "delete" tr = 1 ∧
+      (names tr).getLast? = some "Done" ∧
+      ∃ pre, names tr = pre ++ "Wait" :: "OnCloserError" :: ["Lock", "delete", "Unlock", "Done"] := by
+  obtain ⟨pre, hpre, hbody⟩ := serveTCPConn_exit s sem hs fuel started acc tr h
+  have c1 := count_body "OnCloserError" (by decide) pre hbody
+  have c2 := count_body "Wait" (by decide) pre hbody
+  have c3 := count_body "Done" (by decide) pre hbody
+  have c4 := count_body "delete" (by decide) pre hbody
+  unfold cnt
+  rw [hpre]
+  refine ⟨?_, ?_, ?_, ?_, ?_, pre ++ ["handlePanicAndRecover"], ?_⟩
+  · rw [List.count_append, c1]; decide
+  · rw [List.count_append, c2]; decide
+  · rw [List.count_append, c3]; decide
+  · rw [List.count_append, c4]; decide
+  · simp [connExit]
+  · simp [connExit]
+
+/-- **The order the model's `cSettle true` assumes**: on every way out of `serveTCPConn` the one `Close`
+(`log.OnCloserError(conn, …)`) comes directly after the one `wg.Wait()`; neither occurs before. -/
+theorem serveTCPConn_waits_before_close (s : S_dnsserver_ServerDNS) (sem : AbsPtr) (hs : Option String) (fuel : Nat)
+    (started : Nat → Bool) (acc : Nat → Option String) (tr : List (String × List String))
+    (h : serveTCPConn s sem hs fuel started acc = some tr) :
+    ∃ pre, names tr = pre ++ ["Wait", "OnCloserError", "Lock", "delete", "Unlock", "Done"] ∧
+      "Wait" ∉ pre ∧ "OnCloserError" ∉ pre := by
+  obtain ⟨pre, hpre, hbody⟩ := serveTCPConn_exit s sem hs fuel started acc tr h
+  refine ⟨pre ++ ["handlePanicAndRecover"], by simp [hpre, connExit], ?_, ?_⟩
+  · intro hm
+    simp only [List.mem_append, List.mem_singleton] at hm
+    rcases hm with hm | hm
+    · exact absurd (hbody _ hm) (by decide)
+    · exact absurd hm (by decide)
+  · intro hm
+    simp only [List.mem_append, List.mem_singleton] at hm
+    rcases hm with hm | hm
+    · exact absurd (hbody _ hm) (by decide)
+    · exact absurd hm (by decide)
+
+/-- **`recv`**: `acceptTCPMsg` never panics; when it hands a frame to a worker (`Submit`) it has counted the
+frame in the connection's wait group just before (`wg.Add(1)` in the reader, after the semaphore), and when the
+read or the semaphore fails nothing is counted and nothing submitted. -/
+theorem acceptTCPMsg_counts_before_submit (s : S_dnsserver_ServerDNS) (timeout : Int) (rd : AbsPtr × Option String)
+    (cs : AbsPtr × Bool) (sni : String) (rc : AbsPtr × AbsPtr) (cx : AbsPtr) (acq sub : Option String) :
+    ∃ e tr, acceptTCPMsg s timeout rd cs sni rc cx acq sub = some (e, tr) ∧
+      ((rd.2.isSome ∨ acq.isSome) → "Add" ∉ names tr ∧ "Submit" ∉ names tr ∧ e.isSome) ∧
+      ((rd.2.isNone ∧ acq.isNone) → e = sub ∧
+        names tr = ["readTCPMsg", "requestContext", "ContextWithRequestInfo", "Acquire", "Add", "Submit"]) := by
+  unfold acceptTCPMsg
+  obtain ⟨p, re⟩ := rd
+  obtain ⟨c, ok⟩ := cs
+  cases re <;> cases ok <;> cases acq <;> refine ⟨_, _, rfl, ?_, ?_⟩ <;> simp [names]
+
+/-- **`finish`**: the worker of a frame serves it, closes the connection iff nothing was written, and tells
+the connection's wait group last — so `wg.Wait()` returns only after the response went out. -/
+theorem serveTCPMessage_done_last (s : S_dnsserver_ServerDNS) (buf : List Int) (written : Bool) :
+    names (serveTCPMessage s buf written) =
+      "serveDNS" :: (if written then [] else ["OnCloserError"]) ++ ["handlePanicAndRecover", "Done"] := by
+  cases written <;> simp [serveTCPMessage, names]
+
+/-- The task the reader submits runs the worker and releases the semaphore token after it. -/
+theorem acceptTCPMsg_task_order (s : S_dnsserver_ServerDNS) (timeout : Int) :
+    names (acceptTCPMsg_task s timeout) = ["serveTCPMessage", "Put", "Release", "reqCancel"] := by
+  simp [acceptTCPMsg_task, names]
+
+def srvC : S_dnsserver_ServerDNS where
+  ServerBase := none
+  conf := {
+    ConfigBase := { Network := "", Name := "c", Addr := "" }
+    ReadTimeout := 2
+    WriteTimeout := 2
+    TCPIdleTimeout := 30
+    MaxPipelineCount := 100
+    UDPSize := 512
+    TCPSize := 512
+    MaxUDPRespSize := 0
+    MaxPipelineEnabled := true }
+
+-- Non-vacuity: two frames, then the client half-closes (the third read fails with EOF).
+example : ∃ tr, serveTCPConn srvC true none 5 (fun _ => true) (fun i => if i < 2 then none else some "EOF") = some tr ∧
+    names tr = ["NewChanSemaphore", "handshake", "isStarted", "acceptTCPMsg", "isStarted", "acceptTCPMsg", "isStarted",
+      "acceptTCPMsg", "logReadErr", "handlePanicAndRecover", "Wait", "OnCloserError", "Lock", "delete", "Unlock", "Done"] :=
+  ⟨_, rfl, by decide⟩
+
 end Agd.Tie.TrC01
 
 #print axioms Agd.Tie.TrC01.translation_complete
